@@ -52,7 +52,7 @@ def main():
         out["existing_tests_failing_with_change"] = fails
         # the check
         t = time.time()
-        rc, o = sh(["./check", prop, "--tier", "quick"], cwd=V, env=dict(ENV, VERIF_REPO=wt), timeout=3600)
+        rc, o = sh(["./check", prop, "--tier", "quick"], cwd=V, env=dict(ENV, VERIF_REPO=wt, VERIF_EVIDENCE_DIR=os.path.join(V, ".build", "evidence_scratch")), timeout=3600)
         out["check_exit"] = rc
         out["check_output"] = [l for l in o.splitlines() if l.startswith(("VIOLATION", "KNOWN-FINDING"))]
         out["check_wall_s"] = round(time.time() - t, 1)
